@@ -18,7 +18,7 @@ RULE = (
     "distinct = distinct cell tuples / distinct sequence shapes"
 )
 ASSUMPTIONS = ["EMPTY_ACK_DELAY is 0.1 s (read from the library at run time)", "simulated one-way latency 1 ms"]
-REQUIRED_MONITORS = {"multicast_con_request_suppressed": 4, "table_cell": 500, "table_cell_busy_peer": 100, "mid_boundary": 100, "duplicate_delivery": 100, "token_reuse": 50, "misfit_same_mid": 10, "con_never_to_multicast": 500, "sequence": 50, "noninterference": 50, "response_object_returned_again": 48}
+REQUIRED_MONITORS = {"multicast_con_request_suppressed": 4, "table_cell": 500, "table_cell_busy_peer": 100, "mid_boundary": 100, "duplicate_delivery": 100, "token_reuse": 50, "misfit_same_mid": 10, "con_never_to_multicast": 500, "sequence": 50, "noninterference": 50, "response_object_returned_again": 68}
 EXHAUSTIVE = {"single_message_table": "types x codes x token known/unknown x unicast/multicast x delays x No-Response x result class as enumerated by cells()"}
 
 CON, NON, ACK, RST = 0, 1, 2, 3
@@ -546,13 +546,16 @@ def run_shard(shard, rep, only=None):
     # request, whatever was stamped on the object when it was sent before ---------------------
     kinds = [(CON, 0.0), (CON, 1.0), (NON, 0.0), (NON, 1.0)]
     pairs = [(a, b, c) for a in kinds for b in kinds for c in (None,) + tuple(kinds[:1] + kinds[2:3])]
+    # ... and the first of the requests carries a No-Response option that suppresses the response: what was noted on
+    # the object for that request says nothing about the later ones
+    pairs += [((t1, d1, 26), b, None) for (t1, d1) in kinds for b in kinds] + [((t1, d1, 2), b, None) for (t1, d1) in kinds[:1] + kinds[2:3] for b in kinds[:1] + kinds[2:3]]
     for j, trio in enumerate(pairs):
         if j % shard["of"] != shard["index"]:
             continue
         case = ["cached", j]
         if only is not None and only != case:
             continue
-        seq = [(typ, 1, False, False, d, None, "cached-2.05") for typ, d in trio if typ is not None] if trio[2] is not None else [(typ, 1, False, False, d, None, "cached-2.05") for typ, d in trio[:2]]
+        seq = [(x[0], 1, False, False, x[1], x[2] if len(x) > 2 else None, "cached-2.05") for x in trio if x is not None]
         res, box = run_sequence(seq, shard["seed"] * 7349 + j, rep, case, gap=1.5)
         if not res.ok:
             if res.horizon:
